@@ -300,6 +300,20 @@ class Recorder:
                 R.cur_es["exc"] = type(ex).__name__
                 raise
             finally:
+                # "survived feasibility filtering": every survivor satisfies the USER's constraint (judged at the original-space point)
+                try:
+                    cf, vt = getattr(R, "cons_fn", None), getattr(R, "vt", None)
+                    if cf is not None and vt is not None:
+                        for g in R.cur_es["gens"]:
+                            rows = g[1]
+                            ok_rows = rows[~np.isnan(rows).any(axis=1)] if rows.shape[0] else rows
+                            if ok_rows.shape[0]:
+                                v = np.asarray(cf(vt.inverse_transf(ok_rows))).reshape(-1) > 0
+                                if v.any():
+                                    R.cur_es["infeasible_survivor"] = ok_rows[int(np.argmax(v))].tolist()
+                                    break
+                except Exception as ex:
+                    R.cur_es["cons_note"] = repr(ex)[:100]
                 R.es_calls.append(R.cur_es)
                 R.cur_es = None
 
@@ -422,6 +436,7 @@ def run_bads(cfg):
         with warnings.catch_warnings():
             warnings.simplefilter("ignore")
             b = BADS(target, x0, lb, ub, plb, pub, non_box_cons=CONS[cfg["cons"]], options=opts)
+            rec.cons_fn, rec.vt = CONS[cfg["cons"]], b.var_transf
             rec.hard_lb = np.array(b.lower_bounds, dtype=float).reshape(-1).copy()
             rec.hard_ub = np.array(b.upper_bounds, dtype=float).reshape(-1).copy()
             b.optimize()
@@ -531,6 +546,8 @@ def es_monitor(c):
     gens = c["gens"]
     if c.get("lcb_bad"):
         return "bad", c["lcb_bad"], "es-acquisition-not-lcb"
+    if c.get("infeasible_survivor") is not None:
+        return "bad", f"a candidate that violates the user's constraint survived the filtering inside the strategy: {c['infeasible_survivor']} (internal coordinates)", "es-infeasible-survivor"
     if c.get("desync") or any(g[2] is None for g in gens) and c["exc"] is None:
         return "unobserved", "acq_fcn_lcb was not called on the filtered population", "es-unobserved"
     done = [g for g in gens if g[2] is not None]
